@@ -52,7 +52,8 @@ def gen_params(rng, variant=None):
     p["third_config_own_mapping"] = False if ident else rng.random() < 0.6     # the third path configuration has its own folder vocabulary
     p["default_config"] = "local" if ident else rng.choice(["local", "local", "server"])      # the default need not be the first configured
     p["third_config_narrow"] = False if ident else rng.random() < 0.4      # the third configuration only knows the first state
-    p["twin_basetype"] = False if ident else rng.random() < 0.5               # a basetype with the SAME key names as the shot one (other type code)
+    p["twin_basetype"] = False if ident else rng.random() < 0.5
+    p["explicit_root"] = True if ident else rng.random() < 0.7             # False: the one-key root level is left to extrapolation               # a basetype with the SAME key names as the shot one (other type code)
     p["sep"] = "_" if ident else rng.choice(["_", "-", "_", "="])   # (no regex metacharacters: literal template parts are read as regex by the resolver)
     p["folders"] = {"prod": "PROD", "assets": "ASSETS", "shots": "SHOTS", "output": "OUTPUT", "export": "EXPORT", "renders": "RENDERS"} if ident else rng.choice([
         {"prod": "PROD", "assets": "ASSETS", "shots": "SHOTS", "output": "OUTPUT", "export": "EXPORT", "renders": "RENDERS"},
@@ -128,7 +129,11 @@ def build(p):
         T.append((W + "__" + K["state"], tpl(w_levels, cw)))
         T.append((W, tpl(w_levels[:2], cw)))
         to_ex.append(W + "__" + K["state"])
-    T.append((P, "{%s}" % K["project"]))
+    root_type = P
+    if p.get("explicit_root", True):
+        T.append((P, "{%s}" % K["project"]))
+    else:
+        root_type = A + "__" + K["project"]      # generated by the first extrapolated type
     vp, vn = p["version_pat"]
     images = ["exr", "png"]
     kp = {
@@ -242,7 +247,7 @@ def build(p):
         PT.append((W + "__" + K["task"], fs(w_dir[:-1])))
         PT.append((W + "__" + K["sequence"], fs(w_dir[:-2])))
         PT.append((W, fs(w_dir[:3])))
-    PT.append((P, fs([ph(K["project"])])))
+    PT.append((root_type, fs([ph(K["project"])])))
     inv = lambda m: {v: k for k, v in m.items()}   # noqa
     fs_kp = {
         "{%s}" % K["state"]: "{%s:%s}" % (K["state"], _alt(list(m_state.keys()))),
@@ -266,7 +271,7 @@ def build(p):
             "third_mapping": {K["project"]: m_proj, K["type"]: m_type, K["state"]: m_state3} if (p.get("third_config_own_mapping") or p.get("third_config_narrow")) else None,
             "default_config": p.get("default_config", "local"),
             "third_fs_key_patterns": fs_kp3, "third_defaults": {K["state"]: list(m_state3.keys())[0]},
-            "names": {"A": A, "S": S, "P": P, "R": R, "W": W, "K": K}, "constants": p["constants"], "third_config": p["third_config"],
+            "names": {"A": A, "S": S, "P": root_type, "R": R, "W": W, "K": K}, "constants": p["constants"], "third_config": p["third_config"],
             "with_assettype": p["with_assettype"]}
 
 
